@@ -1,3 +1,33 @@
+C01/Corr.vo C01/Corr.glob C01/Corr.v.beautified C01/Corr.required_vo: C01/Corr.v Common/Ops.vo Common/Vec.vo Common/Out.vo C07/Model.vo C01/Model.vo
+C01/Corr.vio: C01/Corr.v Common/Ops.vio Common/Vec.vio Common/Out.vio C07/Model.vio C01/Model.vio
+C01/Corr.vos C01/Corr.vok C01/Corr.required_vos: C01/Corr.v Common/Ops.vos Common/Vec.vos Common/Out.vos C07/Model.vos C01/Model.vos
+C01/Examples.vo C01/Examples.glob C01/Examples.v.beautified C01/Examples.required_vo: C01/Examples.v Common/Ops.vo Common/Vec.vo C07/Model.vo C01/Model.vo
+C01/Examples.vio: C01/Examples.v Common/Ops.vio Common/Vec.vio C07/Model.vio C01/Model.vio
+C01/Examples.vos C01/Examples.vok C01/Examples.required_vos: C01/Examples.v Common/Ops.vos Common/Vec.vos C07/Model.vos C01/Model.vos
+C01/Model.vo C01/Model.glob C01/Model.v.beautified C01/Model.required_vo: C01/Model.v Common/Ops.vo Common/Vec.vo C07/Model.vo
+C01/Model.vio: C01/Model.v Common/Ops.vio Common/Vec.vio C07/Model.vio
+C01/Model.vos C01/Model.vok C01/Model.required_vos: C01/Model.v Common/Ops.vos Common/Vec.vos C07/Model.vos
+C01/Proofs.vo C01/Proofs.glob C01/Proofs.v.beautified C01/Proofs.required_vo: C01/Proofs.v Common/Ops.vo Common/Vec.vo Common/VecLemmas.vo C07/Model.vo C01/Model.vo
+C01/Proofs.vio: C01/Proofs.v Common/Ops.vio Common/Vec.vio Common/VecLemmas.vio C07/Model.vio C01/Model.vio
+C01/Proofs.vos C01/Proofs.vok C01/Proofs.required_vos: C01/Proofs.v Common/Ops.vos Common/Vec.vos Common/VecLemmas.vos C07/Model.vos C01/Model.vos
+C01/Properties.vo C01/Properties.glob C01/Properties.v.beautified C01/Properties.required_vo: C01/Properties.v Common/Ops.vo Common/Vec.vo Common/VecLemmas.vo C07/Model.vo C01/Model.vo C01/Proofs.vo
+C01/Properties.vio: C01/Properties.v Common/Ops.vio Common/Vec.vio Common/VecLemmas.vio C07/Model.vio C01/Model.vio C01/Proofs.vio
+C01/Properties.vos C01/Properties.vok C01/Properties.required_vos: C01/Properties.v Common/Ops.vos Common/Vec.vos Common/VecLemmas.vos C07/Model.vos C01/Model.vos C01/Proofs.vos
+C02/Corr.vo C02/Corr.glob C02/Corr.v.beautified C02/Corr.required_vo: C02/Corr.v Common/Ops.vo Common/Vec.vo Common/Out.vo C07/Model.vo C07/Corr.vo C02/Model.vo
+C02/Corr.vio: C02/Corr.v Common/Ops.vio Common/Vec.vio Common/Out.vio C07/Model.vio C07/Corr.vio C02/Model.vio
+C02/Corr.vos C02/Corr.vok C02/Corr.required_vos: C02/Corr.v Common/Ops.vos Common/Vec.vos Common/Out.vos C07/Model.vos C07/Corr.vos C02/Model.vos
+C02/Examples.vo C02/Examples.glob C02/Examples.v.beautified C02/Examples.required_vo: C02/Examples.v Common/Ops.vo Common/Vec.vo C07/Model.vo C01/Model.vo C02/Model.vo
+C02/Examples.vio: C02/Examples.v Common/Ops.vio Common/Vec.vio C07/Model.vio C01/Model.vio C02/Model.vio
+C02/Examples.vos C02/Examples.vok C02/Examples.required_vos: C02/Examples.v Common/Ops.vos Common/Vec.vos C07/Model.vos C01/Model.vos C02/Model.vos
+C02/Model.vo C02/Model.glob C02/Model.v.beautified C02/Model.required_vo: C02/Model.v Common/Ops.vo Common/Vec.vo C07/Model.vo C01/Model.vo
+C02/Model.vio: C02/Model.v Common/Ops.vio Common/Vec.vio C07/Model.vio C01/Model.vio
+C02/Model.vos C02/Model.vok C02/Model.required_vos: C02/Model.v Common/Ops.vos Common/Vec.vos C07/Model.vos C01/Model.vos
+C02/Proofs.vo C02/Proofs.glob C02/Proofs.v.beautified C02/Proofs.required_vo: C02/Proofs.v Common/Ops.vo Common/Vec.vo Common/VecLemmas.vo C07/Model.vo C07/Proofs.vo C01/Model.vo C01/Proofs.vo C02/Model.vo
+C02/Proofs.vio: C02/Proofs.v Common/Ops.vio Common/Vec.vio Common/VecLemmas.vio C07/Model.vio C07/Proofs.vio C01/Model.vio C01/Proofs.vio C02/Model.vio
+C02/Proofs.vos C02/Proofs.vok C02/Proofs.required_vos: C02/Proofs.v Common/Ops.vos Common/Vec.vos Common/VecLemmas.vos C07/Model.vos C07/Proofs.vos C01/Model.vos C01/Proofs.vos C02/Model.vos
+C02/Properties.vo C02/Properties.glob C02/Properties.v.beautified C02/Properties.required_vo: C02/Properties.v Common/Ops.vo Common/Vec.vo Common/VecLemmas.vo C07/Model.vo C07/Proofs.vo C01/Model.vo C01/Proofs.vo C02/Model.vo C02/Proofs.vo
+C02/Properties.vio: C02/Properties.v Common/Ops.vio Common/Vec.vio Common/VecLemmas.vio C07/Model.vio C07/Proofs.vio C01/Model.vio C01/Proofs.vio C02/Model.vio C02/Proofs.vio
+C02/Properties.vos C02/Properties.vok C02/Properties.required_vos: C02/Properties.v Common/Ops.vos Common/Vec.vos Common/VecLemmas.vos C07/Model.vos C07/Proofs.vos C01/Model.vos C01/Proofs.vos C02/Model.vos C02/Proofs.vos
 C07/Corr.vo C07/Corr.glob C07/Corr.v.beautified C07/Corr.required_vo: C07/Corr.v Common/Ops.vo Common/Vec.vo Common/Out.vo C07/Model.vo
 C07/Corr.vio: C07/Corr.v Common/Ops.vio Common/Vec.vio Common/Out.vio C07/Model.vio
 C07/Corr.vos C07/Corr.vok C07/Corr.required_vos: C07/Corr.v Common/Ops.vos Common/Vec.vos Common/Out.vos C07/Model.vos
